@@ -76,6 +76,12 @@ pub struct Ctx<'a> {
     pub mut_self: bool,
     pub full_ret_lean: Option<String>,
     pub out_params: Vec<String>, // rust names of `&mut` params (incl. "self") returned alongside the result
+    /// the function threads a random source (`rng: &mut R`, `R: Rng`) as explicit state
+    pub rng_mode: bool,
+    /// uses a primitive of `Model/Rng.lean` that needs `[RngFloat α]`
+    pub uses_rngfloat: bool,
+    /// nested `fn` items of the function being translated: rust name -> lifted definition
+    pub local_fns: HashMap<String, FnInfo>,
 }
 
 #[derive(Clone)]
@@ -84,6 +90,8 @@ pub struct LoopCtx {
     pub call: String,                     // "f.loop1 fuel captured..." prefix for the recursive call (without state args)
     pub ret_ty: String,                   // lean type of function return (for LoopR)
 }
+
+pub const RNG_TY: &str = "Statrs.Model.Rng";
 
 pub const LEAN_KW: &[&str] = &[
     "end", "begin", "at", "from", "fun", "open", "by", "do", "then", "show", "have", "where", "with", "in", "instance", "Type", "Prop",
@@ -180,9 +188,16 @@ impl<'a> Ctx<'a> {
                 for i in ins {
                     parts.push(self.lean_ty(i)?);
                 }
-                parts.push(self.lean_ty(out)?);
+                // a closure that receives the random source (`&mut R`) returns the advanced source with its value
+                if ins.iter().any(|i| *i == Ty::Rng) {
+                    parts.push(format!("({} × {})", self.lean_ty(out)?, RNG_TY));
+                } else {
+                    parts.push(self.lean_ty(out)?);
+                }
                 format!("({})", parts.join(" → "))
             }
+            Ty::Rng => RNG_TY.into(),
+            Ty::RandUniform => "(Statrs.Model.UniformFloat α)".into(),
             Ty::F32 => return Err("f32".into()),
             Ty::Str => return Err("string type".into()),
             Ty::Never => "Unit".into(),
